@@ -220,6 +220,22 @@ def execute(ctx):
                         raised[0] += 1
                         ctx.probe('callback raised during dispatch')
                         raise RuntimeError('scripted callback failure')
+            # every kind of callable a user can register: plain function, functools.partial, callable instance,
+            # bound method (the last three have no __name__ / __qualname__ of their own)
+            kind = i % 4
+            if kind == 1:
+                import functools
+                return functools.partial(lambda tag, pk: cb(pk), i)
+            if kind == 2:
+                class Handler:
+                    def __call__(self, pk):
+                        return cb(pk)
+                return Handler()
+            if kind == 3:
+                class Owner:
+                    def on_packet(self, pk):
+                        return cb(pk)
+                return Owner().on_packet
             return cb
         for i in range(n):
             cbs.append(mk(i))       # callback object number i; registration r uses cbs[r['cb']]
